@@ -184,6 +184,25 @@ QueryHistory == <<"origin_to", "point_along", "isometry_to", "angle", "normalize
 Assign(arr, pos, h) == [arr EXCEPT ![pos] = h]
 Edits == << [pos |-> 1, sec |-> 2], [pos |-> 4, sec |-> 3], [pos |-> 9, sec |-> 5], [pos |-> 14, sec |-> 4], [pos |-> 4, sec |-> 1] >>
 EditsSound == \A i \in 1..Len(Edits) : Edits[i].sec \in 1..Len(Seconds) /\ Edits[i].pos >= 1
+(***************************************************************************)
+(* Constructed isometries are VALUES.  Applying an isometry object to a    *)
+(* point, inverting it, composing it with another one or reading its       *)
+(* matrix are queries on it: after any sequence of such uses the SAME      *)
+(* object still sends the origin / the base tangent vector to its target   *)
+(* (IsoUses is the sequence replayed on every constructed isometry), and   *)
+(* its inverse sends the target back: Inv(g).(p_g, v_g) = (o, e_1).        *)
+(* Orientation: with force_oriented every UNIT of an array of constructed  *)
+(* isometries has positive determinant (OrientChoices are replayed on      *)
+(* arrays of all frames of a dimension, whose unforced determinants are    *)
+(* mixed), and the targets are hit either way.                             *)
+(***************************************************************************)
+IsoUses == <<"apply", "inv", "apply", "compose_inverse", "matrix", "inv_apply", "apply">>
+OrientChoices == <<TRUE, FALSE>>
+InverseLaws ==
+  Bound(1500) => /\ Act(Inv(g), BaseOf(g)) = E1
+                 /\ PrimPos(MatVec(Inv(g)[1], V1)) = Pad(<<0, 1>>)
+                 /\ Mul(g, Inv(g)) = Ident
+
 \* frames whose tangent vector has integer hyperboloid coordinates (handed over as INTEGER arrays)
 Integral == D = 1
 
@@ -203,5 +222,7 @@ ASSUME PrintT("SECONDS " \o ToJson([i \in 1..Len(Seconds) |->
                                          [p |-> BaseOf(Seconds[i]), ph |-> BaseRaw(Seconds[i]), v |-> DirOf(Seconds[i]),
                                           d |-> Seconds[i][2], along |-> AlongOf(Seconds[i])]]))
 ASSUME PrintT("HISTORY " \o ToJson(QueryHistory))
+ASSUME PrintT("ISOUSES " \o ToJson(IsoUses))
+ASSUME PrintT("ORIENT " \o ToJson(OrientChoices))
 ASSUME PrintT("EDITS " \o ToJson(Edits))
 =============================================================================
